@@ -56,13 +56,14 @@ func verifyOut(w uint32, msg, sig []byte, pk [67]uint8) (out string, intact bool
 }
 
 type scenario struct {
-	sid int
-	h   int
-	hf  int
-	idx int
-	msg []byte
-	sig []byte
-	pk  [67]uint8
+	light bool // tall-tree scenario in the quick tier: a subset of the bit flips
+	sid   int
+	h     int
+	hf    int
+	idx   int
+	msg   []byte
+	sig   []byte
+	pk    [67]uint8
 }
 
 func c04(r *rand.Rand, tier string, tr *trace.Buf) {
@@ -104,9 +105,55 @@ func c04(r *rand.Rand, tier string, tr *trace.Buf) {
 					continue
 				}
 				sid++
-				scs = append(scs, scenario{sid, h, hf, i, msg, sig, x.GetPK()})
+				scs = append(scs, scenario{false, sid, h, hf, i, msg, sig, x.GetPK()})
 			}
 		}
+	}
+	// tall trees: chosen leaves are computed for real, all others are synthetic (leaf hook), so genuine
+	// signatures exist at those indices for heights whose descriptor nibble is >= 6
+	tallHs := []int{16}
+	if tier == "thorough" {
+		tallHs = []int{12, 16, 20}
+	}
+	for _, h := range tallHs {
+		n := 1 << uint(h)
+		realIdx := map[uint32]bool{0: true, 256: true, uint32(n - 1): true}
+		if h > 16 {
+			realIdx[65536] = true
+		}
+		xmss.VerifLeafHook = func(hf xmss.HashFunction, leaf []uint8, idx uint32) bool {
+			if realIdx[idx] {
+				return false
+			}
+			b := []byte{byte(idx), byte(idx >> 8), byte(idx >> 16), byte(idx >> 24), 0xa5}
+			for i := range leaf {
+				leaf[i] = b[i%5] ^ byte(i*11)
+			}
+			return true
+		}
+		var seed [48]uint8
+		r.Read(seed[:])
+		hf := h / 4 % 3
+		x := xmss.NewXMSSFromSeed(seed, uint8(h), xmss.HashFunction(hf), common.SHA256_2X)
+		var order []int
+		for i := range realIdx {
+			order = append(order, int(i))
+		}
+		for _, i := range sortedInts(order) {
+			if tier == "quick" && i != 256 && i != n-1 {
+				continue
+			}
+			x.SetIndex(uint32(i))
+			msg := make([]byte, 1+r.Intn(40))
+			r.Read(msg)
+			sig, err := x.Sign(msg)
+			if err != nil {
+				continue
+			}
+			sid++
+			scs = append(scs, scenario{tier == "quick", sid, h, hf, i, msg, sig, x.GetPK()})
+		}
+		xmss.VerifLeafHook = nil
 	}
 	bufs := make([]*trace.Buf, len(scs))
 	var wg sync.WaitGroup
@@ -129,6 +176,126 @@ func c04(r *rand.Rand, tier string, tr *trace.Buf) {
 		tr.Append(b)
 	}
 	junkCases(r, tier, tr)
+	msgLengthSweep(r, tier, tr)
+	pathKeyCases(r, tier, tr)
+}
+
+// pathKeyCases: valid triples for one-path keys of EVERY height 1..30 under every descriptor height that
+// could be confused with it; plus public keys whose root is what an untouched buffer holds.
+func pathKeyCases(r *rand.Rand, tier string, tr *trace.Buf) {
+	emit := func(class string, t pathTriple, genuine bool, msg, sig []byte, pk [67]uint8) {
+		e := vEvent{Ev: "case", Class: class, W: 16, H: t.h, BaseHf: t.hf, Idx: t.idx, SigLen: len(sig), B0: int(pk[0]), B1: int(pk[1]), B2: int(pk[2]), Genuine: genuine}
+		e.Out, e.Intact = verifyOut(0, msg, sig, pk)
+		o16, _ := verifyOut(16, msg, sig, pk)
+		e.Same16 = o16 == e.Out
+		tr.Emit(e)
+	}
+	for h := 1; h <= 30; h++ {
+		for rep := 0; rep < 2; rep++ {
+			hf := (h + rep) % 3
+			var idx uint32
+			switch rep {
+			case 0:
+				idx = uint32(r.Int63n(int64(1) << uint(h)))
+			case 1:
+				idx = uint32((int64(1) << uint(h)) - 1)
+			}
+			for _, declared := range []int{h, h - 1, h + 1, h - 2, h + 2} {
+				if declared < 0 || declared > 30 || declared%2 != 0 {
+					continue
+				}
+				t := pathKey(r, h, hf, idx, declared, 1+r.Intn(50))
+				emit("path-key", t, true, t.msg, t.sig, t.pk) // the specification decides from (length, descriptor) whether it may verify
+				if declared == h {
+					bad := dup(t.sig)
+					bad[len(bad)-1] ^= 1 // top authentication node
+					emit("path-key-top-auth-flipped", t, false, t.msg, bad, t.pk)
+					emit("path-key-wrong-message", t, false, append(dup(t.msg), 1), t.sig, t.pk)
+					// index field beyond the tree, everything else genuine
+					oob := dup(t.sig)
+					v := uint32(t.idx) + uint32(1)<<uint(h)
+					oob[0], oob[1], oob[2], oob[3] = byte(v>>24), byte(v>>16), byte(v>>8), byte(v)
+					if h < 31 {
+						emit("path-key-index-plus-2^h", t, false, t.msg, oob, t.pk)
+					}
+				}
+			}
+		}
+	}
+	// public keys whose root is what an untouched buffer holds (all zero / all 0xff), supported hash function,
+	// descriptor consistent with the length; signature content random, zero, and random with an index beyond the tree
+	for _, h := range []int{4, 6, 10, 20, 30} {
+		for hf := 0; hf < 3; hf++ {
+			for _, fill := range []byte{0x00, 0xff} {
+				for variant := 0; variant < 4; variant++ {
+					var pk [67]uint8
+					pk[0], pk[1] = uint8(hf), uint8(h/2)
+					for i := 3; i < 35; i++ {
+						pk[i] = fill
+					}
+					r.Read(pk[35:])
+					sig := make([]byte, 2180+32*h)
+					switch variant {
+					case 0:
+						r.Read(sig)
+					case 1: // all zero, index 0
+					case 2:
+						r.Read(sig)
+						sig[0], sig[1], sig[2], sig[3] = 0xff, 0xff, 0xff, 0xff
+					case 3:
+						r.Read(sig)
+						v := uint32(1) << uint(h)
+						sig[0], sig[1], sig[2], sig[3] = byte(v>>24), byte(v>>16), byte(v>>8), byte(v)
+					}
+					msg := make([]byte, r.Intn(20))
+					r.Read(msg)
+					e := vEvent{Ev: "case", Class: "untouched-buffer-root", W: 16, H: h, BaseHf: hf, SigLen: len(sig), B0: int(pk[0]), B1: int(pk[1]), Genuine: false, Same16: true}
+					e.Out, e.Intact = verifyOut(0, msg, sig, pk)
+					tr.Emit(e)
+				}
+			}
+		}
+	}
+}
+
+// msgLengthSweep: for every message length the genuine triple verifies and no variant of the message does.
+func msgLengthSweep(r *rand.Rand, tier string, tr *trace.Buf) {
+	maxLen := 200
+	if tier == "thorough" {
+		maxLen = 700
+	}
+	var seed [48]uint8
+	r.Read(seed[:])
+	hf := r.Intn(3)
+	x := xmss.NewXMSSFromSeed(seed, 10, xmss.HashFunction(hf), common.SHA256_2X)
+	pk := x.GetPK()
+	for L := 0; L <= maxLen && int(x.GetIndex()) < 1023; L++ {
+		msg := make([]byte, L)
+		r.Read(msg)
+		idx := int(x.GetIndex())
+		sig, err := x.Sign(msg)
+		if err != nil {
+			break
+		}
+		base := vEvent{Ev: "case", Class: "len-genuine", W: 16, H: 10, BaseHf: hf, Idx: idx, SigLen: len(sig), B0: int(pk[0]), B1: int(pk[1]), B2: int(pk[2]), Genuine: true, Same16: true}
+		base.Out, base.Intact = verifyOut(0, msg, sig, pk)
+		tr.Emit(base)
+		vars := [][]byte{append(dup(msg), 0), append(dup(msg), byte(1+r.Intn(255)))}
+		if L > 0 {
+			a := dup(msg)
+			a[L-1] ^= 1
+			b := dup(msg)
+			b[0] ^= 0x80
+			vars = append(vars, a, b, msg[:L-1])
+		}
+		for _, v := range vars {
+			e := base
+			e.Class = "len-message-variant"
+			e.Genuine = false
+			e.Out, e.Intact = verifyOut(0, v, sig, pk)
+			tr.Emit(e)
+		}
+	}
 }
 
 func sortedInts(a []int) []int {
@@ -178,6 +345,9 @@ func scenarioEvents(s scenario, all []scenario, r *rand.Rand, tier string, b *tr
 			go func() {
 				defer wg.Done()
 				for off := wk; off < n; off += nw {
+					if s.light && target == "sig" && off >= 4 && off%23 != 0 && off < n-32*s.h {
+						continue
+					}
 					e := s.ev("bitflip")
 					e.Ev = "flip"
 					e.Target = target
@@ -196,7 +366,9 @@ func scenarioEvents(s scenario, all []scenario, r *rand.Rand, tier string, b *tr
 		}
 		wg.Wait()
 		for _, e := range evs {
-			b.Emit(e)
+			if e.Ev != "" {
+				b.Emit(e)
+			}
 		}
 	}
 	flipAll("sig", len(s.sig), func(off int, bit uint) ([]byte, []byte, [67]uint8) {
@@ -266,10 +438,13 @@ func scenarioEvents(s scenario, all []scenario, r *rand.Rand, tier string, b *tr
 		e := s.ev("foreign-signature")
 		e.Genuine = false
 		emit(e, 0, s.msg, o.sig, s.pk)
-		e.Class = "foreign-signature-own-message"
-		emit(e, 0, o.msg, o.sig, s.pk)
-		e.Class = "foreign-pk"
-		emit(e, 0, s.msg, s.sig, o.pk)
+		sameKey := o.pk == s.pk // two scenarios of one key (tall trees): the other's own triple is a valid one
+		if !sameKey {
+			e.Class = "foreign-signature-own-message"
+			emit(e, 0, o.msg, o.sig, s.pk)
+			e.Class = "foreign-pk"
+			emit(e, 0, s.msg, s.sig, o.pk)
+		}
 		if len(o.sig) == len(s.sig) {
 			// splice single components
 			for _, rg := range [][2]int{{0, 4}, {4, 36}, {36, 36 + 2144}, {36 + 2144, len(s.sig)}} {
@@ -284,11 +459,15 @@ func scenarioEvents(s scenario, all []scenario, r *rand.Rand, tier string, b *tr
 			p := s.pk
 			copy(p[3:35], o.pk[3:35])
 			e.Class = "foreign-root"
-			emit(e, 0, s.msg, s.sig, p)
+			if p != s.pk {
+				emit(e, 0, s.msg, s.sig, p)
+			}
 			p = s.pk
 			copy(p[35:], o.pk[35:])
 			e.Class = "foreign-pubseed"
-			emit(e, 0, s.msg, s.sig, p)
+			if p != s.pk {
+				emit(e, 0, s.msg, s.sig, p)
+			}
 		}
 	}
 	// index field set to other values, the rest genuine
